@@ -30,6 +30,11 @@ def build(s):
             return S.RandomUniformSampler(d, n_points=n)
         if kind == "grid":
             return S.GridSampler(d, n_points=n)
+        if kind == "gridflt":         # a grid sampler with a filter that every grid point passes: the same grid, row by row
+            src = "def flt(%s):\n    return %s > -1.0\n" % (v, v)
+            ns = {}
+            exec(src, ns)
+            return S.GridSampler(d, n_points=n, filter_fn=ns["flt"])
         if kind == "gauss":
             return S.GaussianSampler(d, n_points=n, mean=0.5, std=0.4)
         if kind == "lhs":
